@@ -73,6 +73,9 @@ type bad struct{}
 // Any attempt to inspect it aborts the run as unsupported.
 type opaqueStr struct{ id int }
 
+// decStr is the decimal text of a symbolic integer (strconv.Format* result).
+type decStr struct{ n *sym }
+
 // nil-tolerant variant of types.Identical.
 func sameType(x, y types.Type) bool {
 	if x == nil {
@@ -94,8 +97,12 @@ func (i *interpreter) eqv(t types.Type, x, y value) value {
 			return true
 		}
 		panic(unsupported{"comparison of an opaque (formatted) string"})
+	case decStr:
+		return i.decStrEq(x, y)
 	}
 	switch y := y.(type) {
+	case decStr:
+		return i.decStrEq(y, x)
 	case *sym:
 		return i.symEq(y, x)
 	case symstr:
